@@ -23,7 +23,9 @@ def CS.apply (c : CS) (sb : Step × Blk) : Option CS :=
     | x :: r => if x = sb.2.id then some ⟨x, r⟩ else none
     | [] => none
   | .stalled => some c
-  | .newIrreversible => none
+  | .newIrreversible =>
+    -- a block delivered new and final at once: it must extend the final chain and nothing may be pending
+    if c.pend.isEmpty && sb.2.parent == c.lib then some ⟨sb.2.id, []⟩ else none
 
 def CS.runSB : CS → List (Step × Blk) → Option CS
   | c, [] => some c
